@@ -429,6 +429,29 @@ example : stringToBytesArg .other ['1', 'K', 'B'] false = .error .valueError ∧
     stringToBytesArg .omitted ['1', 'K', 'B'] false = .ok (.float 1024 1) ∧
     stringToBytesArg (.str ['i', 'e', 'c']) ['1', 'K', 'B'] true = .error .valueError := by decide +kernel
 
+/-- **return_int is a truth value** — the call yields the ceiling (an int) exactly when the flag is
+    truthy and the float otherwise, whatever object carries the flag: two flags with the same truth value
+    give the same result, and for an admitted in-range text a truthy flag gives the int `n` with
+    `den·(n−1) < num ≤ den·n`, a falsy one (or none: the default is False, live signature) the float
+    `num/den`.  Partial only through the binary64 range hypothesis, as `s2b_value_partial`. -/
+theorem s2b_flag_is_truth_value_partial (s : Sys) (t : Text) (ha : t.Admitted s) (mult : Nat)
+    (hm : specMult s t.pfx = some mult) (hr : t.InRange mult) (f : FlagArg) :
+    (flagTruth f = true →
+      ∃ n : Int, stringToBytesCall (.str s.key) (render t) f = .ok (.int n) ∧
+        (t.den : Int) * (n - 1) < t.num mult ∧ t.num mult ≤ (t.den : Int) * n) ∧
+    (flagTruth f = false →
+      stringToBytesCall (.str s.key) (render t) f = .ok (.float (t.num mult) t.den)) ∧
+    flagTruth .omitted = false := by
+  refine ⟨fun h => ?_, fun h => ?_, by decide⟩
+  · simp only [stringToBytesCall, stringToBytesArg, h]
+    exact s2b_int_is_ceil_partial s t ha mult hm hr
+  · simp only [stringToBytesCall, stringToBytesArg, h]
+    exact s2b_value_partial s t ha mult hm hr
+
+example : stringToBytesCall (.str Sys.iec.key) ['1', '2', 'b'] (.obj true) = .ok (.int 2) ∧
+    stringToBytesCall (.str Sys.iec.key) ['1', '2', 'b'] (.obj false) = .ok (.float 12 8) ∧
+    stringToBytesCall (.str Sys.iec.key) ['1', '2', 'b'] .omitted = .ok (.float 12 8) := by decide +kernel
+
 /-- **Total** — whatever the unit-system key and the text, the only errors are ValueError and, with
     `return_int`, OverflowError; in particular never KeyError (finding D5: a prefix admitted by a
     regex but missing from the exponent table) and never TypeError (mixed mode's `None` base).
